@@ -37,6 +37,19 @@ theorem evalOpen_closed (w : World) (h0 : Grammar.isNT w.g "" = false) (hv : w.r
     (hcl : w.root.closed = true) (β : Env) (f : Fm) (b : Bool) (h : evalOpen w β f = some b) :
     evalRef w β f = some b := evalOpen_closed' w h0 hv hcl β f b h
 
+/-- a definite TRUE on a partial tree: EVERY closed completion satisfies the constraint -/
+theorem evalOpen_true_all (w : World) (h0 : Grammar.isNT w.g "" = false) (β : Env) (f : Fm)
+    (h : evalOpen w β f = some true) :
+    ∀ t', completes w.g w.root t' = true → Sat (w.withRoot t') β f :=
+  fun t' hc => (evalOpen_sat w t' h0 hc β f true h).1 rfl
+
+/-- a definite FALSE on a partial tree: NO closed completion satisfies the constraint (the solver may
+discard the state) -/
+theorem evalOpen_false_none (w : World) (h0 : Grammar.isNT w.g "" = false) (β : Env) (f : Fm)
+    (h : evalOpen w β f = some false) :
+    ∀ t', completes w.g w.root t' = true → ¬ Sat (w.withRoot t') β f :=
+  fun t' hc hs => Bool.false_ne_true ((evalOpen_sat w t' h0 hc β f false h).2 hs)
+
 /-! non-vacuity: `forall <d> d in start: (= d "1")` on `<start>(<d>("1"), <d>?)` is undecided, on
 `<start>(<d>("0"), <d>?)` it is FALSE; `forall <x> …` over an unreachable type is TRUE -/
 def gEx : Grammar := [("<start>", [["<d>", "<d>"]]), ("<d>", [["0"], ["1"]])]
